@@ -33,7 +33,7 @@ KINDS = {
     'm{${2:a} ${1}\nb ${1:c}}': dict(sc=False, attrs=[], text=[2, 1, 1]),
 }
 IMPLICIT_KINDS = ['x', 'x{t}', 'y[p]', 'q[p=""]', 'z[p q=v]', 'w[p q]/', 'k/']
-POS_KINDS = ['x', 'x{t}', 'y[p]', 'q[p=""]', 'w[p q]/', 'f{${1:a} ${3} ${1}}', 'p{l1\nl2}', 'a', 'img', 'p{l1\n}', 'x{\U0001f389 \U0001d4d0}', 'p{l1\nl2\nl3 ${1:f}}']    # ...text ending in its only line break; characters outside the BMP (one code point each, two UTF-16 units)
+POS_KINDS = ['x', 'x{t}', 'y[p]', 'q[p=""]', 'w[p q]/', 'f{${1:a} ${3} ${1}}', 'p{l1\nl2}', 'a', 'img', 'p{l1\n}', 'x{\U0001f389 \U0001d4d0}', 'p{l1\nl2\nl3 ${1:f}}', 'f{${1:a}\n${2:b}}']      # ... a line break that is a text chunk of its own (between two fields)    # ...text ending in its only line break; characters outside the BMP (one code point each, two UTF-16 units)
 MARKUP_SYNTAXES = ['html', 'xml', 'jsx', 'haml', 'pug', 'slim']
 STYLE_ABBRS = ['p', 'bd', 'p+bd', '@kf', 'trf:rx', 'lg', 'p10+m5-a!', '@ff', 'c#f.5']
 STYLE_SYNTAXES = ['css', 'sass', 'stylus']
